@@ -1,7 +1,8 @@
 (* Model/C10Run.v - case type and checker evaluated on harness-generated cases (C10).
    The checker runs Model/Retry.v's [run] / [backoff] (the functions the theorems are about)
    on the program the harness executed on the real client and compares with what it saw. *)
-From ReqV Require Export Lib.Bytes Model.Retry Model.RetryUpload.
+From ReqV Require Export Lib.Bytes Model.Retry Model.RetryUpload Model.RetrySlices.
+From ReqV Require Import Gen.RetryClone.
 
 (* the harness's retry conditions and hooks, as data *)
 Inductive cond_spec :=
@@ -73,12 +74,18 @@ Inductive c10_case :=
           (detect : bytes) (hkeys : list bytes) (o : obs)
 | BackoffCase (mn mx attempt : Z) (d : Z)    (* d = interval returned by the real function *)
 | UploadCase (retryable chunked : bool) (cform rform : amap) (fs : list mfile)
-             (dtab : list (bytes * bytes)) (o : list (list part * bool)) (failed upfront : bool).
+             (dtab : list (bytes * bytes)) (o : list (list part * bool)) (failed upfront : bool)
+| GroupCase (cond_ops : list sop) (cond_views : list (list Z))
+            (hook_ops : list sop) (hook_views : list (list Z)).
       (* a multipart program: retries enabled (a retry option with count <> 0)?, forced chunked
          encoding?, client-level and request-level form data, file sources, DetectContentType as
          a table; per attempt the parts seen on the wire and whether the body was read to its
          end; whether the call was ended by a refused retry (RetryAttempt counted a retry that
-         was never sent); whether Do refused the request up front *)
+         was never sent); whether Do refused the request up front.
+         GroupCase: several requests built from one client before any is sent: the Set/Add
+         condition (hook) calls and Client.R() calls in build order as operations on option
+         slots (0 = client, i+1 = i-th request), and the conditions (hooks) every slot holds
+         afterwards, probed on the real objects *)
 
 Definition lookup_detect (tab : list (bytes * bytes)) (k : bytes) : bytes :=
   match find (fun e => bytes_eqb (fst e) k) tab with Some e => snd e | None => [] end.
@@ -134,4 +141,7 @@ Definition c10_check (cs : c10_case) : bool :=
       let r := mp_run file_read (lookup_detect dtab) retryable chunked n (add_values cform rform) fs in
       list_eqb (fun a b => list_eqb part_eqb (fst a) (fst b) && Bool.eqb (snd a) (snd b)) (fst (fst r)) o &&
       Bool.eqb (snd (fst r)) failed && Bool.eqb (snd r) upfront
+  | GroupCase cops cviews hops hviews =>
+      list_eqb (list_eqb Z.eqb) (views (wrun go_grow clone_conditions cops world0)) cviews &&
+      list_eqb (list_eqb Z.eqb) (views (wrun go_grow clone_hooks hops world0)) hviews
   end.
